@@ -299,3 +299,234 @@ Proof.
     change (a :: pre ++ x :: repeat_char c n)%list with ((a :: pre) ++ x :: repeat_char c n)%list.
     rewrite (forallb_app_false (Ascii.eqb c) (a :: pre) x _ Hf). exact IH.
 Qed.
+
+Lemma repeat_char_snoc c n : repeat_char c (S n) = (repeat_char c n ++ [c])%list.
+Proof. induction n; simpl in *; auto. f_equal. exact IHn. Qed.
+
+Lemma count_trailing_other c d pre n : d <> c -> 0 < n ->
+  count_trailing_l c (pre ++ repeat_char d n)%list = 0.
+Proof.
+  intros Hd Hn. destruct n as [|n]; [lia|]. rewrite repeat_char_snoc, app_assoc.
+  apply (count_trailing_app c (pre ++ repeat_char d n)%list d 0 Hd).
+Qed.
+
+(** charge of a name [pre ++ x :: signs]: the number of trailing '+' minus the
+    number of trailing '-' *)
+Lemma charge_plus_lemma T Y pre x n sp :
+  t_replacement T = [] -> x <> "+"%char -> x <> "-"%char ->
+  parse_species T Y (str (pre ++ x :: repeat_char "+"%char n)) = inr sp ->
+  is_electron sp = false -> charge sp = Z.of_nat n.
+Proof.
+  intros Hr Hp Hm H He. unfold charge. rewrite He.
+  assert (sp_name sp = str (pre ++ x :: repeat_char "+"%char n)) as Hn.
+  { unfold parse_species in H. rewrite Hr in H.
+    repeat match type of H with
+           | (match ?X with _ => _ end) = _ => destruct X; try discriminate
+           end.
+    injection H as <-. reflexivity. }
+  rewrite Hn. unfold chars. rewrite list_ascii_of_string_of_list_ascii.
+  rewrite count_trailing_app by auto.
+  destruct n as [|n].
+  - change (repeat_char "+"%char 0) with (repeat_char "-"%char 0).
+    rewrite (count_trailing_app "-"%char pre x 0) by auto. lia.
+  - change (pre ++ x :: repeat_char "+"%char (S n))%list with (pre ++ [x] ++ repeat_char "+"%char (S n))%list.
+    rewrite app_assoc. rewrite count_trailing_other; [lia | discriminate | lia].
+Qed.
+
+Lemma charge_minus_lemma T Y pre x n sp :
+  t_replacement T = [] -> x <> "+"%char -> x <> "-"%char ->
+  parse_species T Y (str (pre ++ x :: repeat_char "-"%char n)) = inr sp ->
+  is_electron sp = false -> charge sp = (- Z.of_nat n)%Z.
+Proof.
+  intros Hr Hp Hm H He. unfold charge. rewrite He.
+  assert (sp_name sp = str (pre ++ x :: repeat_char "-"%char n)) as Hn.
+  { unfold parse_species in H. rewrite Hr in H.
+    repeat match type of H with
+           | (match ?X with _ => _ end) = _ => destruct X; try discriminate
+           end.
+    injection H as <-. reflexivity. }
+  rewrite Hn. unfold chars. rewrite list_ascii_of_string_of_list_ascii.
+  rewrite (count_trailing_app "-"%char) by auto.
+  destruct n as [|n].
+  - change (repeat_char "-"%char 0) with (repeat_char "+"%char 0).
+    rewrite (count_trailing_app "+"%char pre x 0) by auto. lia.
+  - change (pre ++ x :: repeat_char "-"%char (S n))%list with (pre ++ [x] ++ repeat_char "-"%char (S n))%list.
+    rewrite app_assoc. rewrite count_trailing_other; [lia | discriminate | lia].
+Qed.
+
+(** ** longest symbol first: the component list is sorted by length, descending *)
+From Coq Require Import Sorted.
+Lemma insert_sorted_sorted (x : string) l :
+  StronglySorted (fun a b => String.length b <= String.length a) l ->
+  StronglySorted (fun a b => String.length b <= String.length a) (insert_sorted by_len_desc x l).
+Proof.
+  induction 1 as [|a l Hs IH Ha]; simpl. repeat constructor.
+  unfold by_len_desc at 1. destruct (Nat.leb_spec (String.length a) (String.length x)).
+  - constructor. constructor; auto. constructor; auto.
+    rewrite Forall_forall in *. intros y Hy. specialize (Ha y Hy). lia.
+  - constructor; auto. rewrite Forall_forall in *. intros y Hy.
+    apply insert_sorted_in in Hy. destruct Hy as [->|Hy]; [lia | auto].
+Qed.
+Lemma components_sorted_lemma T Y :
+  StronglySorted (fun a b => String.length b <= String.length a) (components T Y).
+Proof.
+  unfold components. induction (t_elements T ++ t_pseudo T ++ [y_grain Y; y_surface Y])%list; simpl.
+  constructor. apply insert_sorted_sorted. auto.
+Qed.
+
+(** ** characters claimed by an earlier (longer) component are never reused *)
+Definition span_disjoint (a b : mtch) : Prop := m_end a <= m_start b \/ m_end b <= m_start a.
+
+Definition blanked (s : list ascii) (acc : list mtch) : Prop :=
+  forall m, In m acc -> m_start m < m_end m /\
+    forall i, m_start m <= i < m_end m -> nth_error s i = Some " "%char.
+
+Lemma mask_keeps_blank s a b i : nth_error s i = Some " "%char -> a <= b <= List.length s ->
+  nth_error (mask s a b) i = Some " "%char.
+Proof.
+  intros H Hab. assert (masked_of s s) as Hs by (split; auto).
+  pose proof (mask_masked s s a b Hs Hab) as [Hl Hc].
+  assert (i < List.length s) as Hi by (apply nth_error_Some; congruence).
+  destruct (nth_error (mask s a b) i) eqn:E.
+  - destruct (Hc _ _ E) as [->|E2]; auto. congruence.
+  - apply nth_error_None in E. lia.
+Qed.
+
+Lemma mask_sets_blank s a b i : a <= i < b -> b <= List.length s ->
+  nth_error (mask s a b) i = Some " "%char.
+Proof.
+  intros Hi Hb. unfold mask.
+  rewrite nth_error_app2 by (rewrite firstn_length; lia).
+  rewrite firstn_length. replace (Nat.min a (List.length s)) with a by lia.
+  rewrite nth_error_app1 by (rewrite repeat_char_length; lia).
+  assert (forall n k, k < n -> nth_error (repeat_char " "%char n) k = Some " "%char) as Hrep.
+  { induction n; intros [|k] Hk; simpl; auto; try lia. apply IHn. lia. }
+  apply Hrep. lia.
+Qed.
+
+Lemma mask_length s a b : a <= b <= List.length s -> List.length (mask s a b) = List.length s.
+Proof.
+  intro H. unfold mask. rewrite !app_length, firstn_length, repeat_char_length, skipn_length. lia.
+Qed.
+
+Lemma fold_mask_blank n starts : forall s i,
+  Forall (fun st => st + n <= List.length s) starts ->
+  (nth_error s i = Some " "%char \/ exists st, In st starts /\ st <= i < st + n) ->
+  nth_error (fold_left (fun cur st => mask cur st (st + n)) starts s) i = Some " "%char.
+Proof.
+  induction starts as [|st r IH]; intros s i Hall H; simpl.
+  - destruct H as [H|(st & [] & _)]. exact H.
+  - inversion Hall as [|? ? Hst Hr]; subst. apply IH.
+    + rewrite mask_length by lia. exact Hr.
+    + destruct H as [H|(st' & [<-|Hin] & Hi)].
+      * left. apply mask_keeps_blank; auto. lia.
+      * left. apply mask_sets_blank; lia.
+      * right. exists st'. auto.
+Qed.
+
+(* a blank-free text cannot match across a blank *)
+Lemma match_not_blank t s st i : no_blank t -> starts_with t (skipn st s) = true ->
+  st <= i < st + List.length t -> nth_error s i <> Some " "%char.
+Proof.
+  intros Hnb Hsw Hi Hb.
+  destruct (nth_error t (i - st)) eqn:E.
+  - pose proof (starts_with_nth _ _ _ _ Hsw E) as H1. rewrite nth_error_skipn_add in H1.
+    replace (st + (i - st)) with i in H1 by lia. rewrite Hb in H1. injection H1 as <-.
+    apply Hnb. eapply nth_error_In; eauto.
+  - apply nth_error_None in E. lia.
+Qed.
+
+Lemma find_all_from_spaced p : p <> [] -> forall fuel s pos,
+  StronglySorted (fun a b => a + List.length p <= b) (find_all_from fuel p s pos) /\
+  Forall (fun a => pos <= a) (find_all_from fuel p s pos).
+Proof.
+  intro Hp. induction fuel as [|f IH]; intros s pos; simpl. split; constructor.
+  destruct s as [|c s']. split; constructor.
+  destruct (starts_with p (c :: s')).
+  - destruct (IH (skipn (List.length p) (c :: s')) (pos + List.length p)) as [H1 H2]. split.
+    + constructor; auto.
+    + constructor. lia. eapply Forall_impl; [|exact H2]. simpl. intros; lia.
+  - destruct (IH s' (S pos)) as [H1 H2]. split; auto.
+    eapply Forall_impl; [|exact H2]. simpl. intros; lia.
+Qed.
+
+Definition all_disjoint (l : list mtch) : Prop := ForallOrdPairs span_disjoint l.
+
+Lemma FOP_app {X} (R : X -> X -> Prop) l1 : forall l2,
+  ForallOrdPairs R l1 -> ForallOrdPairs R l2 -> (forall a b, In a l1 -> In b l2 -> R a b) ->
+  ForallOrdPairs R (l1 ++ l2).
+Proof.
+  induction l1 as [|x l1 IH]; intros l2 H1 H2 H12; simpl; auto.
+  inversion H1; subst. constructor.
+  - apply Forall_app. split; auto. apply Forall_forall. intros b Hb. apply H12; simpl; auto.
+  - apply IH; auto. intros a b Ha Hb. apply H12; simpl; auto.
+Qed.
+
+Lemma scan_disjoint_lemma comps : forall s acc,
+  Forall (fun c => no_blank (unescape (chars c))) comps ->
+  blanked s acc -> all_disjoint acc -> all_disjoint (scan comps s acc).
+Proof.
+  induction comps as [|c r IH]; intros s acc Hnb Hbl Hd; simpl; auto.
+  apply Forall_cons_iff in Hnb. destruct Hnb as [Hnbc Hnb].
+  set (t := unescape (chars c)) in *. set (n := List.length t).
+  assert (Hocc : forall st, In st (find_all t s) ->
+            starts_with t (skipn st s) = true /\ st + n <= List.length s /\ t <> []).
+  { intros st Hin. assert (t <> []) as Hne by (intro E; rewrite E in Hin; destruct Hin).
+    apply find_all_sound in Hin. split; auto. split; auto.
+    apply starts_with_length in Hin. rewrite skipn_length in Hin. unfold n.
+    destruct t; [congruence | simpl in *; lia]. }
+  assert (Hn : forall st, In st (find_all t s) -> 0 < n).
+  { intros st Hin. destruct (Hocc st Hin) as (_ & _ & Hne). unfold n. destruct t; [congruence | simpl; lia]. }
+  apply IH; auto.
+  - (* blanked *)
+    intros m Hm. apply in_app_or in Hm. destruct Hm as [Hm|Hm].
+    + destruct (Hbl m Hm) as [Hlt Hb]. split; auto. intros i Hi.
+      apply fold_mask_blank; [|left; auto].
+      apply Forall_forall. intros st Hin. destruct (Hocc st Hin) as (_ & H & _). exact H.
+    + apply in_map_iff in Hm. destruct Hm as (st & <- & Hin). simpl. split.
+      * specialize (Hn st Hin). lia.
+      * intros i Hi. apply fold_mask_blank.
+        -- apply Forall_forall. intros st' Hin'. destruct (Hocc st' Hin') as (_ & H & _). exact H.
+        -- right. exists st. auto.
+  - (* disjoint *)
+    apply FOP_app; auto.
+    + (* new matches among themselves *)
+      unfold find_all in *. destruct t as [|a t'] eqn:Et. constructor.
+      assert (a :: t' <> []) as Hne by discriminate.
+      destruct (find_all_from_spaced (a :: t') Hne (List.length s) s 0) as [Hs _].
+      fold n in Hs. clear - Hs.
+      induction Hs as [|x l Hl IHl Hx]; simpl; constructor; auto.
+      apply Forall_forall. intros m Hm. apply in_map_iff in Hm. destruct Hm as (st & <- & Hin).
+      left. simpl. rewrite Forall_forall in Hx. apply Hx. exact Hin.
+    + intros m1 m2 H1 H2. apply in_map_iff in H2. destruct H2 as (st & <- & Hin). simpl.
+      destruct (Hbl m1 H1) as [Hlt Hb]. destruct (Hocc st Hin) as (Hsw & Hlen & _).
+      unfold span_disjoint. simpl.
+      destruct (Nat.le_gt_cases (m_end m1) st) as [|H3]; auto.
+      destruct (Nat.le_gt_cases (st + n) (m_start m1)) as [|H4]; auto.
+      exfalso. pose proof (Hn st Hin) as Hpos.
+      apply (match_not_blank t s st (Nat.max st (m_start m1)) Hnbc Hsw). fold n; lia.
+      apply Hb. lia.
+Qed.
+
+Theorem matches_disjoint_lemma T Y pn : wf_tables T Y -> all_disjoint (scan (components T Y) pn []).
+Proof.
+  intro Hwf. apply scan_disjoint_lemma; auto.
+  - intros m [].
+  - constructor.
+Qed.
+
+(** decidable form of [wf_tables] *)
+Definition no_blankb (t : list ascii) : bool := negb (memb Ascii.eqb " "%char t).
+Definition wf_tablesb (T : tables) (Y : symbols) : bool :=
+  forallb (fun c => no_blankb (unescape (chars c))) (components T Y).
+Lemma memb_In_ascii c l : memb Ascii.eqb c l = true <-> In c l.
+Proof.
+  induction l as [|a l IH]; simpl. split; [discriminate | tauto].
+  rewrite orb_true_iff, IH, Ascii.eqb_eq. intuition.
+Qed.
+Lemma wf_tablesb_sound T Y : wf_tablesb T Y = true -> wf_tables T Y.
+Proof.
+  unfold wf_tablesb, wf_tables. rewrite forallb_forall, Forall_forall.
+  intros H c Hc. specialize (H c Hc). unfold no_blankb in H. apply negb_true_iff in H.
+  intro Hin. apply memb_In_ascii in Hin. congruence.
+Qed.
